@@ -195,6 +195,7 @@ type sim struct {
 	fSigned        map[string]string
 	signed         map[string]map[string]bool
 	phLog          []phLogEntry
+	macroRejected  []string
 	fetchReqs      []fetchReq
 	futureStored   map[string]bool // rounds for which votes were stored while the round was still in the future
 	realCertificates bool // replays carry certificates consistent with what validators signed before
